@@ -572,7 +572,7 @@ TRANSLATED = {
     "C11": ["tr_termination.py -> Gen/GenTermination.v", "tr_facts.py -> Gen/GenFactsPersist.v (persist_locked)",
             "tr_par.py -> Gen/GenPar.v (num_threads, take_items, acquire_locked, acquire_pops, workers_loop, one_worker_per_thread)"],
     "C12": ["tr_regex.py -> Gen/GenRegex.v"],
-    "C13": ["tr_termination.py -> Gen/GenTermination.v", "tr_facts.py -> Gen/GenFactsBuild.v (build_locked)"],
+    "C13": ["tr_termination.py -> Gen/GenTermination.v", "tr_facts.py -> Gen/GenFactsBuild.v (build_locked, setup_only_shape, build_commands_are_executor_and_suite, execute_run_steps)"],
     "C14": ["tr_facts.py -> Gen/GenFactsRewrite.v (replace_atomic)"],
     "C15": ["tr_welford.py -> Gen/GenWelford.v (StatisticProperties.add_sample over an abstract arithmetic signature)"],
     "C16": ["tr_facts.py -> Gen/GenFactsKill.v (kill_cond, kill_then_raise, nokill_raises, pids_before_kill, collect_recursive)",
